@@ -10,9 +10,12 @@
   `some <prefix> <ns>`; `attribute_node` -> `none` | `some <name> <str>`; `namespace_declarations` ->
   `l p:ns …` (Vec order); `get_attribute*<n>` / `get_namespace*<n>` -> `l 0=<str|-> 1=…` resp.
   `l 0=<ns|-> …`: the call for every name id / prefix id below `<n>`.
+  The child-list accessors (Model/AxesChildLists.lean): `namespace_nodes` (`namespaces(node).nodes()`),
+  `attributes_nodes` (`attributes(node).nodes()`), `all_children`, `abnormal_children` -> `l p1 p2 …`.
 -/
 import XotModel.Model.Axes
 import XotModel.Model.ValueAccess
+import XotModel.Model.AxesChildLists
 import XotModel.Driver.TreeCodec
 
 namespace XotModel.Driver
@@ -111,6 +114,10 @@ def axesEntry (t : Tree) (p : Path) (entry : String) : Option String :=
   | "top_element" => some (showAxOutcome (topElement t p))
   | "document_element" => some (showAxOutcome (documentElement t p))
   | "attribute_nodes" => some (showPaths (attributeNodes t p))
+  | "namespace_nodes" => some (showPaths (namespaceNodes t p))
+  | "attributes_nodes" => some (showPaths (attributesNodes t p))
+  | "all_children" => some (showPaths (allChildrenPaths t p))
+  | "abnormal_children" => some (showPaths (abnormalChildrenPaths t p))
   | "has_document_parent" => some (showB01 (hasDocumentParent t p))
   | "is_document_element" => some (showB01 (isDocumentElement t p))
   | "get_element_name" => some (match getElementName t p with | .ok n => s!"ok {n}" | _ => "panic")
@@ -141,6 +148,7 @@ def allEntries : List String :=
    "level_order", "root", "top_element", "document_element",
    "has_document_parent", "is_document_element", "get_element_name", "comment_str", "processing_instruction",
    "namespace_node", "attribute_node", "namespace_declarations", "get_attribute*20", "get_namespace*7",
+   "namespace_nodes", "attributes_nodes", "all_children", "abnormal_children",
    "axis_child", "axis_descendant", "axis_parent", "axis_ancestor", "axis_following_sibling",
    "axis_preceding_sibling", "axis_following", "axis_preceding", "axis_attribute", "axis_self",
    "axis_descendant_or_self", "axis_ancestor_or_self"]
